@@ -563,8 +563,15 @@ func r02_4(c *Ctx) {
 			if e, ok := stripConvAll(x).(*ssa.Extract); ok && e.Index == 0 {
 				if call, ok := e.Tuple.(*ssa.Call); ok {
 					switch calleeName(call) {
-					case "strconv.ParseInt", "strconv.ParseUint", "strconv.Atoi":
+					case "strconv.ParseInt", "strconv.ParseUint":
 						parsed = true
+						// the encoder writes up to MaxInt64/1e6 milliseconds (13 digits, < 2^44)
+						bits, isK := constInt(call.Call.Args[2])
+						wide := isK && (bits >= 44 || (bits == 0 && P.intIs64()))
+						c.check(wide, fnLabel(um)+":retry-width", P.ipos(call), "the parsed width covers every retry value the encoder can write", "the retry value is parsed into fewer bits than the encoder can produce (13 decimal digits need 44 bits): large Retry values encode but fail to decode")
+					case "strconv.Atoi":
+						parsed = true
+						c.check(P.intIs64(), fnLabel(um)+":retry-width", P.ipos(call), "int is 64 bits wide on this target", "Atoi parses into int, which is 32 bits on this target: large Retry values encode but fail to decode")
 					}
 				}
 			}
@@ -919,4 +926,158 @@ func r15_4(c *Ctx) {
 		}
 		c.check(all, fnLabel(rs)+":clears-all", P.pos(rs.Pos()), "reset clears every field of Message", "reset leaves a field of Message untouched")
 	}
+}
+
+// ---------------------------------------------------------------------------
+// R15.5: UnmarshalText's "nothing was decoded" verdict looks at every field group
+
+func init() {
+	register(&Rule{ID: "R15.5", Title: "UnmarshalText reports an empty input exactly when no data/comment, type, retry and ID was decoded (or the field parser failed)", Floor: 2, Run: r15_5})
+	if p := properties["C15"]; p != nil {
+		p.Rules = append(p.Rules, "R15.5")
+		p.Explanation += " R15.5 path-wise over Message.UnmarshalText: every path that ends, after the field loop, in an error has established the field parser's error or all four of (no chunks, type unset, retry zero, ID unset); every path that ends there in success has established no parser error and at least one of the four groups present (a message holding only a type, or only a retry, round-trips)."
+	}
+}
+
+func r15_5(c *Ctx) {
+	P := c.P
+	fn := P.Fn("(*Message).UnmarshalText")
+	if fn == nil {
+		c.anchor("(*Message).UnmarshalText")
+		return
+	}
+	name := fnLabel(fn)
+	recv := fn.Params[0]
+	// which Message field an address/value belongs to
+	var msgField func(v ssa.Value, d int) string
+	msgField = func(v ssa.Value, d int) string {
+		if d > 8 {
+			return ""
+		}
+		switch x := v.(type) {
+		case *ssa.FieldAddr:
+			if x.X == ssa.Value(recv) {
+				if st, ok := deref(x.X.Type()).Underlying().(*types.Struct); ok {
+					return st.Field(x.Field).Name()
+				}
+			}
+			return msgField(x.X, d+1)
+		case *ssa.Field:
+			return msgField(x.X, d+1)
+		case *ssa.UnOp:
+			return msgField(x.X, d+1)
+		}
+		return ""
+	}
+	isSetOf := func(field string) func(ssa.Value) bool {
+		return func(v ssa.Value) bool {
+			if call, ok := isModCall(v, "(messageField).IsSet"); ok && len(call.Call.Args) == 1 {
+				return msgField(call.Call.Args[0], 0) == field
+			}
+			if o, n, _, ok := fieldOfLoad(v); ok && o == "messageField" && n == "set" {
+				return msgField(v, 0) == field
+			}
+			return false
+		}
+	}
+	isChunksLen := isLenCallOf(func(v ssa.Value) bool {
+		b, ok := isFieldLoad(v, "Message", "chunks")
+		return ok && b == ssa.Value(recv)
+	})
+	isRetry := func(v ssa.Value) bool { b, ok := isFieldLoad(v, "Message", "Retry"); return ok && b == ssa.Value(recv) }
+	isPErr := func(v ssa.Value) bool {
+		_, ok := isModCall(v, "(*parser.FieldParser).Err")
+		return ok
+	}
+	paths, okP := abstractPaths(fn, 20000, nil)
+	if !okP || len(paths) == 0 {
+		c.undecided(name+":empty-verdict", P.pos(fn.Pos()), "too many paths through UnmarshalText")
+		return
+	}
+	nErr, nOK := 0, 0
+	why := ""
+	for _, p := range paths {
+		if len(loopsContaining(fn, p.Ret.Block())) > 0 {
+			continue
+		}
+		retNil := true
+		for _, s := range sources(p.St.resolve(p.Ret.Results[0])) {
+			if !isNilConst(s) {
+				retNil = false
+			}
+		}
+		var perrT, perrF, chunks0, chunksN, typeU, typeS, retry0, retryN, idU, idS bool
+		for e := range p.St.Edges {
+			if len(e.From.Instrs) == 0 {
+				continue
+			}
+			ifi, isIf := e.From.Instrs[len(e.From.Instrs)-1].(*ssa.If)
+			if !isIf || len(loopsContaining(fn, e.From)) > 0 {
+				continue
+			}
+			if s, ok := nilEdge(ifi, isPErr); ok {
+				if s == e.Idx {
+					perrF = true
+				} else {
+					perrT = true
+				}
+			}
+			if l, h, okE, ok := intEdgeSets(ifi, isChunksLen, 0); ok && okE[e.Idx] {
+				if h[e.Idx] == 0 {
+					chunks0 = true
+				} else if l[e.Idx] >= 1 {
+					chunksN = true
+				}
+			}
+			if s, ok := boolEdge(ifi, isSetOf("Type")); ok {
+				if s == e.Idx {
+					typeS = true
+				} else {
+					typeU = true
+				}
+			}
+			if s, ok := boolEdge(ifi, isSetOf("ID")); ok {
+				if s == e.Idx {
+					idS = true
+				} else {
+					idU = true
+				}
+			}
+			if op, k, succ, ok := cmpConstEdge(ifi, isRetry); ok && k == 0 && (op == token.EQL || op == token.NEQ) {
+				if (e.Idx == succ) == (op == token.EQL) {
+					retry0 = true
+				} else {
+					retryN = true
+				}
+			}
+		}
+		// an error return that evaluated none of the verdict conditions is a field-level error
+		// (e.g. an invalid retry value), not the final verdict
+		if !retNil && !(perrT || perrF || chunks0 || chunksN || typeU || typeS || retry0 || retryN || idU || idS) {
+			continue
+		}
+		if retNil {
+			nOK++
+			if !(perrF && (chunksN || typeS || retryN || idS)) {
+				why = "a success return is reached without having established that the parser has no error and some field group is present"
+			}
+		} else {
+			nErr++
+			if !(perrT || (chunks0 && typeU && retry0 && idU)) {
+				missing := ""
+				for _, m := range []struct {
+					ok bool
+					n  string
+				}{{chunks0, "data/comments"}, {typeU, "type"}, {retry0, "retry"}, {idU, "ID"}} {
+					if !m.ok {
+						missing += " " + m.n
+					}
+				}
+				why = "the input is rejected as empty on a path that never looked at:" + missing + " — a message holding only that field does not round-trip"
+			}
+		}
+	}
+	c.check(why == "" && nErr > 0 && nOK > 0, name+":empty-verdict", P.pos(fn.Pos()), "the final verdict distinguishes exactly (parser error | nothing decoded) from (something decoded): "+itoa(nErr)+" error / "+itoa(nOK)+" success paths",
+		"UnmarshalText's final verdict is wrong: "+why)
+	c.ok(name+":empty-verdict-paths", P.pos(fn.Pos()), itoa(len(paths))+" paths enumerated")
 }
